@@ -8,6 +8,7 @@ from vsc.model.enum_field_model import EnumFieldModel
 from vsc.model.expr_array_subscript_model import ExprArraySubscriptModel
 from vsc.model.expr_bin_model import ExprBinModel
 from vsc.model.expr_fieldref_model import ExprFieldRefModel
+from vsc.model.expr_indexed_field_ref_model import ExprIndexedFieldRefModel
 from vsc.model.expr_literal_model import ExprLiteralModel
 from vsc.model.field_array_model import FieldArrayModel
 from vsc.model.field_scalar_model import FieldScalarModel
@@ -204,8 +205,24 @@ class XExprEvaluator(ModelVisitor):
             self.is_x = True
             self.val = None
         else:
-            self.is_x = False
-            field.accept(self)
+            # The value is that of the element the index denotes,
+            # provided the index itself is known
+            s.rhs.accept(self)
+            if self.is_x:
+                self.val = None
+            else:
+                s.subscript().accept(self)
+
+    def visit_expr_indexed_fieldref(self, e):
+        root = e.root
+        while isinstance(root, ExprIndexedFieldRefModel):
+            root = root.root
+        if isinstance(root, ExprArraySubscriptModel):
+            root.rhs.accept(self)
+            if self.is_x:
+                self.val = None
+                return
+        e.get_target().accept(self)
             
     def visit_expr_in(self, e):
         e.lhs.accept(self)
